@@ -700,6 +700,11 @@ func checkRow(r rowCase) (o pbt.Outcome) {
 			}
 			continue
 		}
+		if internal {
+			// a never-reported type code elsewhere in the row can shift everything behind it
+			o.Labels = append(o.Labels, "internal_type_code:row_mismatch")
+			return
+		}
 		detail := fmt.Sprintf("column %d (%s, flags %#x): %s", i, typeName(c.Type), c.Flag, d)
 		if isF1(c, vals[i]) {
 			if known == "" {
@@ -725,7 +730,7 @@ func typeNames(ts []uint8) []string {
 }
 
 func TestC13BinaryRows(t *testing.T) {
-	pbt.Run(t, pbt.Spec{ID: "C13", Sub: "rows", Quick: 20000, Thorough: 200000,
+	pbt.Run(t, pbt.Spec{ID: "C13", Sub: "rows", Quick: 50000, Thorough: 300000,
 		Rule: "rows of 1-20 columns of every type a MySQL backend reports in text results (integers of each width/signedness incl. zerofill and YEAR, FLOAT, DOUBLE, NEWDECIMAL up to 65 digits / scale 30, VARCHAR/VAR_STRING/STRING incl. ENUM and SET flags, BLOB family, BIT, JSON, GEOMETRY, DATE, DATETIME, TIMESTAMP with 0-6 fractional digits, TIME -838..838 h, NULL type) with values as mysqld prints them (extremes, zero dates, zero-in-date, impossible days, arbitrary bytes, lengths at the length-encoding boundaries) and NULL in any position; non-trivial = a temporal, decimal, ENUM/SET or unsigned-above-signed-range column, or a NULL beyond the first column",
 		Floor: 0.6}, genRow, checkRow)
 }
